@@ -4,6 +4,7 @@
 -/
 import Rbgp.Wire.Stream
 import Rbgp.Wire.Spec
+import Rbgp.Wire.SubProofs
 set_option linter.unusedSimpArgs false
 set_option linter.unusedVariables false
 namespace Rbgp.Wire
@@ -101,10 +102,10 @@ theorem capDecode_used {code : Nat} {rest : Bytes} {len : Nat} {cap : Cap} {used
        all_goals first | contradiction | (obtain ⟨_, rfl⟩ := h; omega))
 
 /-- inner capability loop: never panics, ends exactly at `opEnd` -/
-theorem capLoop_spec (buf : Bytes) (opEnd : Nat) (hEnd : opEnd ≤ buf.length) :
+theorem capLoop_spec (p : Profile) (buf : Bytes) (opEnd : Nat) (hEnd : opEnd ≤ buf.length) :
     ∀ fuel pos as4 caps, pos ≤ opEnd → opEnd - pos < fuel →
-      (capLoop buf opEnd fuel pos as4 caps).NP ∧
-      ∀ r, capLoop buf opEnd fuel pos as4 caps = .ok r → r.1 = opEnd := by
+      (capLoop p buf opEnd fuel pos as4 caps).NP ∧
+      ∀ r, capLoop p buf opEnd fuel pos as4 caps = .ok r → r.1 = opEnd := by
   intro fuel
   induction fuel with
   | zero => intro pos as4 caps h1 h2; omega
@@ -121,6 +122,8 @@ theorem capLoop_spec (buf : Bytes) (opEnd : Nat) (hEnd : opEnd ≤ buf.length) :
         split
         · simp
         · rename_i hcl
+          rw [capDecodeW_eq]
+          simp only [Out.bind_ok]
           split
           · rename_i cap used hdec
             have hu := capDecode_used hdec
@@ -136,9 +139,9 @@ theorem capLoop_spec (buf : Bytes) (opEnd : Nat) (hEnd : opEnd ≤ buf.length) :
         omega
 
 /-- outer optional-parameter loop never panics -/
-theorem paramLoop_NP (buf : Bytes) (paramEnd : Nat) (hEnd : paramEnd ≤ buf.length) :
+theorem paramLoop_NP (p : Profile) (buf : Bytes) (paramEnd : Nat) (hEnd : paramEnd ≤ buf.length) :
     ∀ fuel pos as4 caps, pos ≤ paramEnd → paramEnd - pos < fuel →
-      (paramLoop buf paramEnd fuel pos as4 caps).NP := by
+      (paramLoop p buf paramEnd fuel pos as4 caps).NP := by
   intro fuel
   induction fuel with
   | zero => intro pos as4 caps h1 h2; omega
@@ -156,7 +159,7 @@ theorem paramLoop_NP (buf : Bytes) (paramEnd : Nat) (hEnd : paramEnd ≤ buf.len
         · simp
         · rename_i hln
           split
-          · have hc := capLoop_spec buf (pos + 2 + buf[pos + 1]) (by omega) (buf.length + 1) (pos + 2) as4 caps
+          · have hc := capLoop_spec p buf (pos + 2 + buf[pos + 1]) (by omega) (buf.length + 1) (pos + 2) as4 caps
               (by omega) (by omega)
             simp only [Out.NP_bind]
             refine ⟨hc.1, fun r hr => ?_⟩
@@ -169,7 +172,7 @@ theorem paramLoop_NP (buf : Bytes) (paramEnd : Nat) (hEnd : paramEnd ≤ buf.len
             refine ⟨by omega, fun _ _ => by simp⟩
     · simp
 
-theorem parseOpen_NP (buf : Bytes) (hdrErr : Notif) : (parseOpen buf hdrErr).NP := by
+theorem parseOpen_NP (p : Profile) (buf : Bytes) (hdrErr : Notif) : (parseOpen p buf hdrErr).NP := by
   unfold parseOpen
   split
   · simp
@@ -190,7 +193,7 @@ theorem parseOpen_NP (buf : Bytes) (hdrErr : Notif) : (parseOpen buf hdrErr).NP 
           split
           · simp
           · simp only [Out.NP_bind]
-            refine ⟨paramLoop_NP buf _ (by omega) _ _ _ _ (by omega) (by omega), fun r _ => ?_⟩
+            refine ⟨paramLoop_NP p buf _ (by omega) _ _ _ _ (by omega) (by omega), fun r _ => ?_⟩
             simp
 
 /-! ## well-formed (four-octet) AS path segment lists -/
@@ -656,6 +659,7 @@ theorem attrBody_spec (two : Bool) (buf : Bytes) (s : AState) (flags code alen p
   · simp only
     split
     · rename_i expected hcf
+      rw [attrKnownW_eq]
       refine ⟨by simp, fun s' h => ?_⟩
       injection h with h; subst h
       exact attrKnown_spec two buf { s with seen := code :: s.seen } flags code alen pos expected hs
@@ -928,7 +932,7 @@ theorem parseMessage_NP {dec : HypDec} (hd : dec.NP) (p : Profile) (c : Codec) (
     simp only [Out.NP_bind, rd8_NP, slice_NP]
     refine ⟨by omega, fun code _ => ⟨⟨by omega, by omega⟩, fun d _ => ?_⟩⟩
     split
-    · exact parseOpen_NP _ _
+    · exact parseOpen_NP _ _ _
     · split
       · exact parseUpdate_NP hd _ _ _ _
       · split
